@@ -5,6 +5,13 @@ from ..interp_prop import InterpProp
 
 class C01(InterpProp):
     id = 'C01'
+    # observables compared with the model (see InterpProp.normalize)
+    cmp_eff = ('guard',)
+    cmp_step = ('event', 'transition')
+    cmp_slot = ()
+    cmp_callbacks = False
+    cmp_err = 'class'
+    cmp_time = False
     quick_cases = 1000
     thorough_cases = 40000
     n_ops = 36
